@@ -432,21 +432,26 @@ func genC12(master uint64, idx int) *Workload {
 		}
 		nc = 3 + r.Intn(2)
 		for c := 0; c < nc; c++ {
-			var ops []Op
 			nops := 24 + r.Intn(24)
+			var ops []Op
 			if huge {
-				nops = n/nc + n/8 + 20
+				// fill phase: this client's share of the expressions, each once; then a hot set
+				// shared by all clients (entries that survive an eviction sweep get hit by several)
+				for ei := c; ei < len(w.Exprs); ei += nc {
+					ops = append(ops, Op{Kind: "oneshot", Expr: ei, Doc: 0})
+				}
+				for o := 0; o < 40; o++ {
+					ops = append(ops, Op{Kind: "oneshot", Expr: (o*37 + c) % 12 * (len(w.Exprs) / 12), Doc: 0})
+				}
+				w.Clients = append(w.Clients, ops)
+				continue
 			}
 			for o := nops; o > 0; o-- {
 				k := "oneshot"
 				if r.Chance(1, 8) {
 					k = "compile_search"
 				}
-				ei := r.Intn(len(w.Exprs))
-				if huge && r.Chance(3, 4) {
-					ei = (c*nops + o*7) % len(w.Exprs) // sweep through all of them
-				}
-				ops = append(ops, Op{Kind: k, Expr: ei, Doc: 0})
+				ops = append(ops, Op{Kind: k, Expr: r.Intn(len(w.Exprs)), Doc: 0})
 			}
 			w.Clients = append(w.Clients, ops)
 		}
